@@ -8,7 +8,7 @@ export GOFLAGS=-mod=mod GOPROXY=off GOSUMDB=off GOTOOLCHAIN=local
 PROP=${1:-build}; TIER=${2:-quick}
 W=/verif/.work
 mkdir -p $W
-FILES="maponly:/repo/internal/machine/vm/machine.go /repo/internal/engine/command/compiler.go /repo/internal/engine/command/commander.go /repo/internal/engine/command/context.go /repo/internal/engine/command/lock.go /repo/internal/engine/command/reference.go /repo/internal/engine/utils/batching/batcher.go /repo/internal/engine/utils/job/jobs.go /repo/libs/collectionutils/linked_list.go /repo/libs/publish/messages.go /repo/internal/bus/monitor.go"
+FILES="maponly:/repo/internal/machine/vm/machine.go /repo/internal/engine/command/compiler.go /repo/internal/engine/command/commander.go /repo/internal/engine/command/context.go /repo/internal/engine/command/lock.go /repo/internal/engine/command/reference.go /repo/internal/engine/utils/batching/batcher.go /repo/internal/engine/utils/job/jobs.go /repo/libs/collectionutils/linked_list.go /repo/libs/publish/messages.go /repo/internal/bus/monitor.go /repo/internal/storage/ledgerstore/store.go /repo/internal/storage/ledgerstore/balances.go /repo/internal/storage/ledgerstore/logs.go /repo/internal/storage/ledgerstore/transactions.go /repo/internal/storage/ledgerstore/accounts.go /repo/internal/storage/ledgerstore/utils.go /repo/internal/storage/ledgerstore/bucket.go"
 build() {
   local variant=$1 flag=$2
   (cd xverif && go build -o $W/instr ./cmd/instr) 2> $W/build-sched.log || return 1
